@@ -18,6 +18,7 @@ from ..runner import Part
 PID = "C01"
 TECHNIQUE = ("exhaustive enumeration of unit pairs/triples of the catalogue + Hypothesis amounts and generated "
              "universes of unit-definition chains, against reference-table / model scales on Fractions")
+LEVEL_TEXT = ("Exhaustive over every ordered unit pair and triple of the 21 linear types of the catalogue + lab set (fixed probe amounts), plus generated amounts and generated universes of definition chains; each conversion is compared with amount x scale ratio from a hand-written reference table / independent model. Exploration, not proof: amounts and user declarations are unbounded.")
 RULE = ("catalogue part: every ordered pair and triple of units of every linear type (predefined + lab types) is "
         "enumerated with fixed probe amounts, and Hypothesis draws (pair|triple, amount of every exact representation); "
         "universe part: Hypothesis generates fresh universes (scaled chains, term-defined, derived-from-base units, "
